@@ -12,6 +12,7 @@ require (
 require (
 	github.com/Wifx/gonetworkmanager/v2 v2.1.0 // indirect
 	github.com/adrianmo/go-nmea v1.1.1-0.20190321164421-7572fbeb90aa // indirect
+	github.com/anishathalye/porcupine v1.3.0
 	github.com/beevik/ntp v0.3.0 // indirect
 	github.com/blang/semver/v4 v4.0.0 // indirect
 	github.com/creack/goselect v0.1.2 // indirect
